@@ -729,13 +729,24 @@ class Eval:
 
     def val(self, t):
         t0 = t
+        if isinstance(t, tuple) and t[0] == 'cast' and len(t) > 3 and 'IntToInt' in str(t[1]) and re.match(r'^u(8|16|32|64)$', str(t[3])):
+            # a narrowing `as uN` truncates (decided before the atom lookup: atoms are matched modulo conversions)
+            v0 = self.val(t[2])
+            if isinstance(v0, int) and v0 >= 0:
+                return v0 & ((1 << int(str(t[3])[1:])) - 1)
+            return v0
+        if isinstance(t, tuple) and t[0] == 'conv':
+            return self.val(t[2])       # value-preserving; looked through before the atom lookup so that a narrowing cast below it counts
         a = self.atoms(t)
         if a is not None:
             return a
-        if t[0] == 'conv':
-            return self.val(t[2])
         if t[0] == 'cast':
-            return self.val(t[2])
+            v0 = self.val(t[2])
+            # a narrowing `as uN` truncates
+            m0 = re.match(r'^u(8|16|32|64)$', str(t[3])) if len(t) > 3 else None
+            if m0 and isinstance(v0, int) and 'IntToInt' in str(t[1]) and v0 >= 0:
+                return v0 & ((1 << int(m0.group(1))) - 1)
+            return v0
         k = t[0]
         if k == 'c':
             return t[1]
